@@ -111,7 +111,7 @@ fn main() {
                 "oracle" => fam_oracle::gen(&mut rng, want, &mut part),
                 "health" => fam_health::gen(&mut rng, want, &mut part),
                 "panic" => fam_panic::gen(&mut rng, want, &mut part),
-                "venue" => mon_kamino::gen(&mut rng, want, &mut part),
+                "venue" => { let half = (want + 1) / 2; mon_kamino::gen(&mut rng, half, &mut part); let mut d: Vec<String> = Vec::new(); mon_drift::gen(&mut rng, want - half.min(want), &mut d); part.extend(d); }
                 "world" => fam_world::gen(&mut rng, want, &mut part),
                     _ => unreachable!(),
                 }));
